@@ -538,7 +538,21 @@ def make_qf(assertions, rounds=None, goal_index=None):
             break
         prev_size = size
         stats["instances"] = 0
-        out = instantiate_once(sk, idx, consts, stats, cc, goal_ids)
+        new = instantiate_once(sk, idx, consts, stats, cc, goal_ids)
+        if r and len(new) == len(out):
+            # monotone: an instance found in an earlier round is never lost (a later round may fall back to a narrower
+            # candidate mode when its pools have grown past the cap)
+            merged = []
+            for orig, a, b in zip(sk, out, new):
+                if a.get_id() == b.get_id() or not _contains_quant(orig):
+                    merged.append(b)
+                    continue
+                cj = {}
+                for t in _conjuncts(b) + _conjuncts(a):
+                    cj.setdefault(t.get_id(), t)
+                merged.append(z3.And(*cj.values()) if len(cj) > 1 else next(iter(cj.values())))
+            new = merged
+        out = new
     stats["ground_terms"] = prev_size
     if os.environ.get("PYVC_RELEVANCE", "1") != "0" and goal_index is not None:
         out = relevance_filter(out, sk, len(skg), stats)
